@@ -1218,6 +1218,14 @@ func (zl *zlexer) Next() (lex, bool) {
 		return *l, true
 	}
 
+	// The input ended inside a quoted string: rdata parsers that do not pair
+	// the quotes themselves would take what they got for a complete record.
+	if zl.quote {
+		l.token = "unbalanced quote"
+		l.err = true
+		return *l, true
+	}
+
 	return lex{value: zEOF}, false
 }
 
